@@ -1,6 +1,7 @@
 package props
 
 import (
+	"os"
 	"fmt"
 	"go/ast"
 	"go/token"
@@ -861,6 +862,9 @@ func interpEncoder(f *core.Func, tuple []string) (res string, ok bool) {
 	info := f.Info()
 	defer func() {
 		if r := recover(); r != nil {
+			if os.Getenv("C08_DEBUG") != "" {
+				fmt.Fprintln(os.Stderr, "interpEncoder:", r)
+			}
 			res, ok = "", false
 		}
 	}()
@@ -992,10 +996,27 @@ func interpEncoder(f *core.Func, tuple []string) (res string, ok bool) {
 		}
 		panic("unsupported expression " + exprStr(e))
 	}
+	ctl := "" // "continue" / "break" raised by a branch statement until the enclosing loop consumes it
 	var execS func(stmts []ast.Stmt) (ret *string)
 	execS = func(stmts []ast.Stmt) *string {
 		for _, st := range stmts {
+			if ctl != "" {
+				return nil
+			}
 			switch s := st.(type) {
+			case *ast.BranchStmt:
+				if s.Label != nil {
+					panic("labelled branch")
+				}
+				switch s.Tok {
+				case token.CONTINUE:
+					ctl = "continue"
+				case token.BREAK:
+					ctl = "break"
+				default:
+					panic("branch")
+				}
+				return nil
 			case *ast.DeclStmt:
 				// var buf strings.Builder / var s string
 				if gd, isG := s.Decl.(*ast.GenDecl); isG {
@@ -1082,6 +1103,11 @@ func interpEncoder(f *core.Func, tuple []string) (res string, ok bool) {
 					if r := execS(s.Body.List); r != nil {
 						return r
 					}
+					if ctl == "break" {
+						ctl = ""
+						break
+					}
+					ctl = ""
 					if s.Post != nil {
 						execS([]ast.Stmt{s.Post})
 					}
@@ -1100,6 +1126,11 @@ func interpEncoder(f *core.Func, tuple []string) (res string, ok bool) {
 					if r := execS(s.Body.List); r != nil {
 						return r
 					}
+					if ctl == "break" {
+						ctl = ""
+						break
+					}
+					ctl = ""
 				}
 			case *ast.ReturnStmt:
 				var r string
